@@ -145,7 +145,9 @@ type C09DockerCase struct {
 
 func c09DockerCheck(c C09DockerCase) (r evid.Result) {
 	const base = int64(1700000000e9)
-	d := &fakedocker.Daemon{}
+	// the daemon cuts the logs at since as the real one does: what the engine asks for has to
+	// cover the first window
+	d := &fakedocker.Daemon{HonourWindow: true, IgnoreUntil: true}
 	for i, offs := range c.Ctrs {
 		var lines []dl.Line
 		for j, o := range offs {
